@@ -40,7 +40,7 @@ def code_gen(settings):
 
 def program(rnd, regs, settings, n=None, feats=None):
     f = mk(rel=rnd.random() < 0.4, inch=rnd.random() < 0.3, arcs=rnd.random() < 0.5, at=True, fw=rnd.random() < 0.3,
-           g92e_retracted=True, p_inside=0.5, extgen=code_gen(settings), p_ext=0.04)
+           g92e_retracted=True, p_inside=0.5, extgen=code_gen(settings), p_ext=0.07)
     if f["fw"]:
         f["fwparam"] = rnd.choice(["", "S1"])
     if feats:
@@ -182,7 +182,7 @@ def tracking(p):
 
 class C11(Monitor):
     prop = "C11"
-    quick_cases = 2500
+    quick_cases = 3000
     rule = ("random interleavings of OctoPrint events (print started/done/failed/cancelling/cancelled/error, paused, resumed and "
             "unrelated events, file selected), G-code and @-commands through the real queuing hooks, script-hook calls, settings "
             "updates (clear-after-print on/off) and API adds; a 20-line reference state machine predicts the active flag, the hook "
@@ -198,10 +198,10 @@ class C11(Monitor):
                [["g", "G28"], ["g", "G1 X5 Y5 Z0.2 F1200"], ["g", "G1 X15 Y15 E1"], ["g", "M117 x"]],
                [["at", "ExcludeRegion", "off"]], [["script", "gcode", "afterPrintDone"]],
                [["settings", "toggle-clear"]], [["api", "addExcludeRegion", dict(type="RectangularRegion", x1=30, y1=30, x2=40, y2=40)]],
-               [["g", "G1 X50 Y50 E2"]]]
+               [["g", "G1 X50 Y50 E2"]], [["script", "gcode", "afterPrintCancelled"]]]
     exhaustive_what = ("small scope: every sequence of up to 3 (quick) / 4 (thorough) steps over {the five print-end events, started, "
                        "paused, resumed, file selected, a G-code stretch entering a region, a further move, a disable @-command, the "
-                       "afterPrintDone hook, a clear-after-print toggle, an API add}, for both initial values of the setting")
+                       "afterPrintDone and afterPrintCancelled hooks, a clear-after-print toggle, an API add}, for both initial values of the setting")
 
     def gen_case(self, rnd, tier, k):
         if k % 4 != 0:
@@ -321,6 +321,15 @@ class C10(Monitor):
     def gen_case(self, rnd, tier, k):
         settings = rand_settings(rnd)
         settings["clear"] = rnd.random() < 0.2
+        if rnd.random() < 0.12:
+            # a print left in inch units, then a millimetre print whose arcs cross thin strips: whatever the arc sampling keeps
+            # from the earlier print decides whether a strip is noticed
+            settings["clear"] = False
+            regs = [["rect", 5.0, y, 55.0, y + rnd.choice([0.2, 0.3, 0.5]), "s%d" % n] for n, y in enumerate((15.0, 30.0, 45.0))]
+            hist = [["event", EV_START]] + program(rnd, regs, settings, rnd.randint(5, 25), feats=dict(inch=True, rel=False)) \
+                + [["g", "G20"]] + [["event", rnd.choice(EV_END)]]
+            return dict(settings=settings, regions=regs, history=hist, q_seed=rnd.randint(0, 10 ** 9),
+                        q_feats=dict(arcs=True, p_arc=0.3, inch=False, rel=False, fw=False, p_inside=0.2))
         regs = gen_regions(rnd, rnd.choice([1, 2, 3]))
         hist = [["event", EV_START]] + program(rnd, regs, settings, rnd.randint(5, 50))
         extra = gen_history(rnd, regs, settings, rnd.randint(0, 6))
@@ -372,7 +381,8 @@ class C10(Monitor):
         rq = random.Random(case["q_seed"])
         regs_t = [(["rect", r["x1"], r["y1"], r["x2"], r["y2"], r["id"]] if r["type"] == "RectangularRegion"
                    else ["circ", r["cx"], r["cy"], r["r"], r["id"]]) for r in regions_now]
-        q = [["event", EV_START]] + program(rq, regs_t, settings, rq.randint(5, 45)) + [["script", "gcode", "afterPrintDone"]]
+        q = [["event", EV_START]] + program(rq, regs_t, settings, rq.randint(5, 45), feats=case.get("q_feats")) \
+            + [["script", "gcode", "afterPrintDone"]]
         for i, st in enumerate(q):
             try:
                 r1 = d1.do(st)
